@@ -87,6 +87,12 @@ pub trait CoreCaps: StreamCipherCore + Sized + 'static {
     fn w_clone(_w: &StreamCipherCoreWrapper<Self>) -> Option<StreamCipherCoreWrapper<Self>> {
         None
     }
+    fn c_clone_from(&mut self, _src: &Self) -> bool {
+        false
+    }
+    fn w_clone_from(_dst: &mut StreamCipherCoreWrapper<Self>, _src: &StreamCipherCoreWrapper<Self>) -> bool {
+        false
+    }
 }
 
 pub trait StreamObj {
@@ -109,6 +115,8 @@ pub trait StreamObj {
     fn alg(&self) -> String;
     fn drop_scan(self: Box<Self>) -> Vec<u8>;
     fn peek(&self) -> Vec<u8>;
+    fn as_any(&self) -> &dyn core::any::Any;
+    fn assign_from(&mut self, src: &dyn core::any::Any) -> bool;
 }
 
 pub const N_APPLY_FORMS: u8 = 6;
@@ -188,6 +196,15 @@ impl<T: CoreCaps> StreamObj for StrO<T> {
     fn peek(&self) -> Vec<u8> {
         self.0.peek()
     }
+    fn as_any(&self) -> &dyn core::any::Any {
+        self
+    }
+    fn assign_from(&mut self, src: &dyn core::any::Any) -> bool {
+        match src.downcast_ref::<StrO<T>>() {
+            Some(s) => T::w_clone_from(&mut self.0, &s.0),
+            None => false,
+        }
+    }
 }
 
 // ---------------------------------------------------------------------------------------------
@@ -253,6 +270,8 @@ pub trait CoreObj {
     fn into_stream(self: Box<Self>) -> Box<dyn StreamObj>;
     fn drop_scan(self: Box<Self>) -> Vec<u8>;
     fn peek(&self) -> Vec<u8>;
+    fn as_any(&self) -> &dyn core::any::Any;
+    fn assign_from(&mut self, src: &dyn core::any::Any) -> bool;
 }
 
 pub struct CoreO<T: CoreCaps>(pub Slot<T>);
@@ -349,6 +368,15 @@ impl<T: CoreCaps> CoreObj for CoreO<T> {
     fn peek(&self) -> Vec<u8> {
         self.0.peek()
     }
+    fn as_any(&self) -> &dyn core::any::Any {
+        self
+    }
+    fn assign_from(&mut self, src: &dyn core::any::Any) -> bool {
+        match src.downcast_ref::<CoreO<T>>() {
+            Some(s) => self.0.c_clone_from(&s.0),
+            None => false,
+        }
+    }
 }
 
 // ---------------------------------------------------------------------------------------------
@@ -364,6 +392,8 @@ pub trait BufObj {
     fn alg(&self) -> String;
     fn drop_scan(self: Box<Self>) -> Vec<u8>;
     fn peek(&self) -> Vec<u8>;
+    fn as_any(&self) -> &dyn core::any::Any;
+    fn assign_from(&mut self, src: &dyn core::any::Any) -> bool;
 }
 
 pub struct BufEncO<C: cipher::BlockCipherEncrypt>(pub Slot<cfb_mode::BufEncryptor<C>>);
@@ -387,7 +417,7 @@ impl<C: cipher::BlockCipherEncrypt + Clone + AlgorithmName + 'static> BufObj for
         Box::new(BufEncO(Slot::new((*self.0).clone())))
     }
     fn debug(&self) -> String {
-        format!("{:?}", &*self.0)
+        format!("{:?}\n{:#?}", &*self.0, &*self.0)
     }
     fn alg(&self) -> String {
         fmt_alg::<cfb_mode::BufEncryptor<C>>()
@@ -397,6 +427,18 @@ impl<C: cipher::BlockCipherEncrypt + Clone + AlgorithmName + 'static> BufObj for
     }
     fn peek(&self) -> Vec<u8> {
         self.0.peek()
+    }
+    fn as_any(&self) -> &dyn core::any::Any {
+        self
+    }
+    fn assign_from(&mut self, src: &dyn core::any::Any) -> bool {
+        match src.downcast_ref::<BufEncO<C>>() {
+            Some(s) => {
+                (*self.0).clone_from(&*s.0);
+                true
+            }
+            None => false,
+        }
     }
 }
 impl<C: cipher::BlockCipherEncrypt + Clone + AlgorithmName + 'static> BufObj for BufDecO<C> {
@@ -417,7 +459,7 @@ impl<C: cipher::BlockCipherEncrypt + Clone + AlgorithmName + 'static> BufObj for
         Box::new(BufDecO(Slot::new((*self.0).clone())))
     }
     fn debug(&self) -> String {
-        format!("{:?}", &*self.0)
+        format!("{:?}\n{:#?}", &*self.0, &*self.0)
     }
     fn alg(&self) -> String {
         fmt_alg::<cfb_mode::BufDecryptor<C>>()
@@ -427,6 +469,18 @@ impl<C: cipher::BlockCipherEncrypt + Clone + AlgorithmName + 'static> BufObj for
     }
     fn peek(&self) -> Vec<u8> {
         self.0.peek()
+    }
+    fn as_any(&self) -> &dyn core::any::Any {
+        self
+    }
+    fn assign_from(&mut self, src: &dyn core::any::Any) -> bool {
+        match src.downcast_ref::<BufDecO<C>>() {
+            Some(s) => {
+                (*self.0).clone_from(&*s.0);
+                true
+            }
+            None => false,
+        }
     }
 }
 
